@@ -1,5 +1,6 @@
 import GettsimVerif.Lemmas.SimTargets
 import GettsimVerif.Lemmas.SimRows
+import GettsimVerif.Lemmas.SimPlanSub
 /-
 Property C04 for the CONCRETE end-to-end model `GV.Simulate.simulate`
 (`compute_taxes_and_transfers` for toy systems): the column reported for a target does not depend
@@ -74,26 +75,32 @@ theorem buildFunctions_targets_agree {ruleFns : List Fn} {gs : List (String × G
   (buildFunctions_targets h h' n f hf).1 f' hf'
 
 /-- **Step 3b: a function that exists for `T` only is an automatic group sum requested by `T`.**
-If `n` is defined in `all` (targets `T`) but not in `all'` (targets `T'`), then `n ∈ T` and `n` is
-not an argument of any rule, p_id aggregation or time conversion function (`pid` = the p_id
-aggregation functions; the list is the argument `functions` of
-`_create_aggregate_by_group_functions`). -/
+If `n` is defined in `all` (targets `T`) but not in `all'` (targets `T'`), then `n ∈ T`, `n` is not
+the `source_col` of an aggregation spec and not an argument of any rule, p_id aggregation or time
+conversion function (`pid` = the p_id aggregation functions; the list is the argument `functions`
+of `_create_aggregate_by_group_functions`): these are exactly the names for which automatic group
+sums are created besides the targets (after the commit "fix: automatic group sums are also created
+for the source columns of aggregation specifications"). -/
 theorem buildFunctions_targets_only {ruleFns : List Fn} {gs : List (String × GroupSpec)}
     {ps : List (String × PidSpec)} {T T' dataCols : List String} {all all' : List Fn}
     (h : buildFunctions ruleFns gs ps T dataCols = .ok all)
     (h' : buildFunctions ruleFns gs ps T' dataCols = .ok all') (n : String) (f : Fn)
     (hf : findFn? all n = some f) (hf' : findFn? all' n = none) :
-    n ∈ T ∧ ∃ pid, pidFns (merge [] ruleFns) dataCols ps = .ok pid ∧
+    n ∈ T ∧ n ∉ gs.filterMap (fun (_, s) => s.source) ∧
+    ∃ pid, pidFns (merge [] ruleFns) dataCols ps = .ok pid ∧
       n ∉ (merge (merge (timeConvFns (merge (merge [] ruleFns) pid) dataCols) (merge [] ruleFns)) pid).flatMap
-        (·.args) :=
-  (buildFunctions_targets h h' n f hf).2 hf'
+        (·.args) := by
+  obtain ⟨h1, _, h3, pid, hpid, h4, _⟩ := (buildFunctions_targets h h' n f hf).2 hf'
+  exact ⟨h1, h3, pid, hpid, h4⟩
 
 /-- **C04 for the concrete model: the column of a target is independent of the other targets.**
 If two calls of `compute_taxes_and_transfers` differ only in the list of targets and both succeed,
 a target requested in both gets exactly the same column.
-(Whether a call SUCCEEDS may depend on the other targets, see `C04SimExamples.sys2` below: an
-automatic group sum that is used only as `source_col` of an aggregation spec, or only as argument
-of a group-id constructor, exists only if it is requested as a target itself.) -/
+(Whether a call SUCCEEDS may still depend on the other targets in one corner: an automatic group
+sum that is used only as argument of a group-id constructor (`wohngeld_vorrang_bg`,
+`wohngeld_kinderzuschl_vorrang_bg` of `wthh_id`) exists only if it is requested as a target itself.
+The analogous dependence for the `source_col` of aggregation specs was a defect of the Python code
+and has been repaired, see `C04SimExamples.sys2`.) -/
 theorem simulate_target_indep (inp : Input) (T T' : List String) (t : String) (tbl tbl' : Table)
     (h : simulate { inp with targets := T } = .ok tbl)
     (h' : simulate { inp with targets := T' } = .ok tbl')
@@ -121,6 +128,46 @@ theorem simulate_target_indep (inp : Input) (T T' : List String) (t : String) (t
     subst this
     exact ⟨rfl, fun _ => rfl⟩
   rw [hfind, hfind', hR, hvv]
+
+/-- **Dropping targets keeps a call successful (one-sided success).** If the call with targets `T`
+succeeds, the call with any sub-list `T' ⊆ T` succeeds as well and reports the same columns,
+provided that
+* `hgrp`: the two arguments of the group-id constructor `wthh_id` that are named like a group
+  aggregate (`wohngeld_vorrang_bg`, `wohngeld_kinderzuschl_vorrang_bg`) are, if requested in `T`,
+  also requested in `T'` (arguments of the group-id constructors are NOT among the names for which
+  automatic group sums are created, so such a sum exists only when it is a target), and
+* `hp`: no p_id aggregation is named like a rule or like a time-conversion variant of a data column
+  (the dictionaries are merged in two different orders, `{**tc, **rules, **pid}` for the
+  candidates of automatic sums and `{**pid, **tc, **rules, …}` for the functions themselves).
+Both hypotheses are necessary, see `C04SimExamples.sysGrp` / `sysPid`. After the commit "fix:
+automatic group sums are also created for the source columns of aggregation specifications" these
+are the only two ways in which the SUCCESS of a call can depend on additional targets. (The
+converse direction fails for a trivial reason: more targets mean more nodes that can fail.) -/
+theorem simulate_subtargets_succeed (inp : Input) (T T' : List String) (tbl : Table)
+    (h : simulate { inp with targets := T } = .ok tbl) (hsub : ∀ t ∈ T', t ∈ T)
+    (hgrp : ∀ a ∈ ["wohngeld_vorrang_bg", "wohngeld_kinderzuschl_vorrang_bg"], a ∈ T → a ∈ T')
+    (hp : ∀ p ∈ inp.pidSpecs, p.1 ∉ inp.rules.map (·.name) ∧
+      ∀ c ∈ inp.data.map (·.1), p.1 ∉ (TimeConv.derivedOf c []).map (·.name)) :
+    ∃ tbl', simulate { inp with targets := T' } = .ok tbl' ∧ ∀ t ∈ T', find? tbl' t = find? tbl t := by
+  have hnames : (inp.rules.map (ruleFn inp.rounding)).map (·.name) = inp.rules.map (·.name) := by
+    rw [List.map_map]; rfl
+  obtain ⟨tbl', h'⟩ : ∃ tbl', simulate { inp with targets := T' } = .ok tbl' := by
+    unfold simulate at h ⊢
+    exact run_sub h hsub hgrp (by simpa only [hnames] using hp)
+  exact ⟨tbl', h', fun t ht => simulate_target_indep inp T' T t tbl' tbl h' h ht (hsub t ht)⟩
+
+/-- **A target of a successful call can be computed alone**, with the same column: the special
+case `T' = [t]` of `simulate_subtargets_succeed`. -/
+theorem simulate_target_alone_succeeds (inp : Input) (T : List String) (t : String) (tbl : Table)
+    (h : simulate { inp with targets := T } = .ok tbl) (ht : t ∈ T)
+    (hgrp : ∀ a ∈ ["wohngeld_vorrang_bg", "wohngeld_kinderzuschl_vorrang_bg"], a ∈ T → a = t)
+    (hp : ∀ p ∈ inp.pidSpecs, p.1 ∉ inp.rules.map (·.name) ∧
+      ∀ c ∈ inp.data.map (·.1), p.1 ∉ (TimeConv.derivedOf c []).map (·.name)) :
+    ∃ tbl', simulate { inp with targets := [t] } = .ok tbl' ∧ find? tbl' t = find? tbl t := by
+  obtain ⟨tbl', h', hcol⟩ := simulate_subtargets_succeed inp T [t] tbl h
+    (fun x hx => by rw [List.mem_singleton] at hx; exact hx ▸ ht)
+    (fun a ha haT => by rw [List.mem_singleton]; exact hgrp a ha haT) hp
+  exact ⟨tbl', h', hcol t List.mem_cons_self⟩
 
 /-- **Order and duplicates of the target list are irrelevant.** Two target lists with the same
 `sorted(set(·))` give literally the same outcome (table or error). -/
@@ -254,19 +301,65 @@ example : nRowsOf { sys with targets := T3 } = 3 ∧
 whole (`nope` does not exist) while a sub-list succeeds -/
 example : (simulate { sys with targets := ["a_m_hh", "nope"] }).toBool = false := by decide +kernel
 
-/-- SUCCESS is not independent of the other targets (so "both calls succeed" is a real
-hypothesis): `mx_hh` is a user spec `max` over the automatic group sum `a_m_hh`. The source
-columns of aggregation specs are not among the names for which `load_and_check_functions` creates
-automatic sums (only arguments of rules / p_id aggregations / time conversions and the targets
-are), so `a_m_hh` exists only if it is requested as well: alone, `mx_hh` fails with the
-"missing root nodes" `ValueError`; together with `a_m_hh` it is computed. -/
+/-- Regression example for a repaired defect. `mx_hh` is a user spec `max` over the automatic
+group sum `a_m_hh`. Before the commit "fix: automatic group sums are also created for the source
+columns of aggregation specifications" the source columns of aggregation specs were not among the
+names for which `load_and_check_functions` creates automatic sums (only arguments of rules / p_id
+aggregations / time conversions and the targets were), so `a_m_hh` existed only if it was requested
+as well: alone, `mx_hh` failed with the "missing root nodes" `ValueError` although it was computed
+when requested together with `a_m_hh` — SUCCESS depended on the other targets. This was a defect of
+the Python code; now both target lists succeed, with the same `mx_hh` column (as
+`simulate_target_indep` demands). -/
 def sys2 : Input := { sys with groupSpecs := [("mx_hh", { aggr := .max, source := some "a_m_hh" })] }
 
-example : (match simulate { sys2 with targets := ["mx_hh"] } with
-    | .error .valueError => true | _ => false) = true := by decide +kernel
-example : (match simulate { sys2 with targets := ["mx_hh", "a_m_hh"] } with
-    | .ok t => ((find? t "mx_hh").map (·.map Examples.fmtVal)) == some ["7.000000", "7.000000", "8.000000"]
+example : (match simulate { sys2 with targets := ["mx_hh"] },
+      simulate { sys2 with targets := ["mx_hh", "a_m_hh"] } with
+    | .ok t, .ok t' =>
+      ((find? t "mx_hh").map (·.map Examples.fmtVal)) == some ["7.000000", "7.000000", "8.000000"] &&
+      ((find? t' "mx_hh").map (·.map Examples.fmtVal)) == some ["7.000000", "7.000000", "8.000000"] &&
+      t.length == 1 && t'.length == 2
+    | _, _ => false) = true := by decide +kernel
+
+/-- the source column of a `count` spec counts as well (`"source_col" in spec` in Python) -/
+def sys3 : Input := { sys with groupSpecs := [("n_hh", { aggr := .count, source := some "a_m_hh" })] }
+
+example : (match buildFunctions (sys3.rules.map (ruleFn true)) sys3.groupSpecs [] ["n_hh"] ["p_id", "hh_id", "x"] with
+    | .ok all => hasFn all "a_m_hh" && hasFn all "n_hh"
     | _ => false) = true := by decide +kernel
+
+/-- the hypotheses of `simulate_subtargets_succeed` / `simulate_target_alone_succeeds` hold for
+`sys` with `T3 ⊇ T1` (no p_id aggregations, the `wthh_id` arguments are not requested) -/
+example : (∀ t ∈ T1, t ∈ T3) ∧
+    (∀ a ∈ ["wohngeld_vorrang_bg", "wohngeld_kinderzuschl_vorrang_bg"], a ∈ T3 → a ∈ T1) ∧
+    (∀ p ∈ sys.pidSpecs, p.1 ∉ sys.rules.map (·.name) ∧
+      ∀ c ∈ sys.data.map (·.1), p.1 ∉ (TimeConv.derivedOf c []).map (·.name)) := by
+  refine ⟨by decide, by decide, ?_⟩
+  intro p hp; cases hp
+
+/-- `hgrp` is necessary: `wthh_id` needs `wohngeld_vorrang_bg` and
+`wohngeld_kinderzuschl_vorrang_bg`; here they are automatic group sums of two rules, which exist
+only when requested: with them the call succeeds, `wthh_id` alone fails ("missing root nodes"). -/
+def sysGrp : Input :=
+  { rules := [Examples.rule "wohngeld_vorrang" ["x"] (Examples.gt (Examples.nm "x") (Examples.it 3)) (some .bool),
+              Examples.rule "wohngeld_kinderzuschl_vorrang" ["x"] (Examples.gt (Examples.nm "x") (Examples.it 5)) (some .bool)],
+    data := Examples.d9.filter fun c => c.1 != "wohngeld_vorrang_bg" && c.1 != "wohngeld_kinderzuschl_vorrang_bg",
+    targets := [] }
+
+example : (simulate { sysGrp with targets :=
+      ["wthh_id", "wohngeld_vorrang_bg", "wohngeld_kinderzuschl_vorrang_bg"] }).toBool = true ∧
+    (simulate { sysGrp with targets := ["wthh_id"] }).toBool = false := by decide +kernel
+
+/-- `hp` is necessary: the rule `got(a_m_hh)` is named like the p_id aggregation `got`; the rule
+wins in `all_functions`, but the candidates for automatic sums are taken from the arguments of the
+p_id aggregation, so `a_m_hh` exists only when requested. -/
+def sysPid : Input :=
+  { rules := [Examples.a_m, Examples.rule "got" ["a_m_hh"] (Examples.nm "a_m_hh") (some .float)],
+    data := Examples.base ++ [("x", Examples.xs), ("p_id_recv", Examples.recv)],
+    pidSpecs := [("got", ⟨"p_id_recv", "a_m"⟩)],
+    targets := [] }
+
+example : (simulate { sysPid with targets := ["got", "a_m_hh"] }).toBool = true ∧
+    (simulate { sysPid with targets := ["got"] }).toBool = false := by decide +kernel
 
 end C04SimExamples
 
